@@ -79,6 +79,17 @@ fn rw_family<S: Strat>(out: &mut Vec<Inst>, fill: bool) {
         out.push(inst(format!("rw1:{}:{}", path, m), core, mode, 1, "R{load,deref,drop} || W{store}", move || {
             h_core::rw::<S>(&RwCfg { readers: 1, loads: 1, fill, writers: vec![vec![Store]], consume: false })
         }));
+        if mode == Fresh && path != "fast" {
+            // Two loads against one store, three preemptions, no stale reads: a writer that read
+            // the generation of the first load and comes back when the reader is inside its
+            // second one (seeded C09-5).
+            let mut x = inst(format!("rw1c_deep:{}", path), core, mode, 2, "R{load,deref,drop,load_full,drop} || W{store}, 4 (thorough: 5) preemptions, no stale reads", move || {
+                h_core::rw::<S>(&RwCfg { readers: 1, loads: 2, fill, writers: vec![vec![Store]], consume: false })
+            });
+            x.pk_quick = vec![(4, 0)];
+            x.pk_thorough = vec![(5, 0)];
+            out.push(x);
+        }
         out.push(inst(format!("rw1b:{}:{}", path, m), core, mode, 2, "R{load,deref,drop,load_full,drop} || W{store,store}", move || {
             h_core::rw::<S>(&RwCfg { readers: 1, loads: 2, fill, writers: vec![vec![Store, Store]], consume: false })
         }));
